@@ -323,14 +323,25 @@ func typeAssert(n *node, withResult, withOk bool) {
 	setStatus := false
 	switch {
 	case withResult && withOk:
-		value0 = genValue(n.anc.child[0])       // returned result
-		value1 = genValue(n.anc.child[1])       // returned status
+		value0 = genValueDefine(n.anc.child[0]) // returned result
+		value1 = genValueDefine(n.anc.child[1]) // returned status
 		setStatus = n.anc.child[1].ident != "_" // do not assign status to "_"
 	case withResult && !withOk:
 		value0 = genValue(n) // returned result
 	case !withResult && withOk:
 		value1 = genValue(n.anc.child[1])       // returned status
 		setStatus = n.anc.child[1].ident != "_" // do not assign status to "_"
+	}
+
+	// setResult sets the status of a two-value assertion, and its result to the zero value if it failed.
+	setResult := func(f *frame, ok *bool) {
+		if setStatus {
+			value1(f).SetBool(*ok)
+		}
+		if withResult && !*ok {
+			v := value0(f)
+			v.Set(reflect.Zero(v.Type()))
+		}
 	}
 
 	typ := c1.typ // type to assert or convert to
@@ -344,10 +355,8 @@ func typeAssert(n *node, withResult, withOk bool) {
 			valf := value(f)
 			v, ok := valf.Interface().(valueInterface)
 			ok = ok && v.node != nil // A nil interface value has no node.
-			if setStatus {
-				defer func() {
-					value1(f).SetBool(ok)
-				}()
+			if withOk {
+				defer setResult(f, &ok)
 			}
 			if !ok {
 				if !withOk {
@@ -424,10 +433,8 @@ func typeAssert(n *node, withResult, withOk bool) {
 			var leftType reflect.Type
 			v := value(f)
 			val, ok := v.Interface().(valueInterface)
-			if setStatus {
-				defer func() {
-					value1(f).SetBool(ok)
-				}()
+			if withOk {
+				defer setResult(f, &ok)
 			}
 			if ok && val.node == nil {
 				// A nil interface value has no node.
@@ -497,10 +504,8 @@ func typeAssert(n *node, withResult, withOk bool) {
 	case isEmptyInterface(n.child[0].typ):
 		n.exec = func(f *frame) bltn {
 			var ok bool
-			if setStatus {
-				defer func() {
-					value1(f).SetBool(ok)
-				}()
+			if withOk {
+				defer setResult(f, &ok)
 			}
 			val := value(f)
 			concrete := val.Interface()
@@ -535,10 +540,8 @@ func typeAssert(n *node, withResult, withOk bool) {
 		n.exec = func(f *frame) bltn {
 			v := value(f).Elem()
 			ok := v.IsValid()
-			if setStatus {
-				defer func() {
-					value1(f).SetBool(ok)
-				}()
+			if withOk {
+				defer setResult(f, &ok)
 			}
 			if !ok {
 				if !withOk {
@@ -567,10 +570,8 @@ func typeAssert(n *node, withResult, withOk bool) {
 	default:
 		n.exec = func(f *frame) bltn {
 			v, ok := value(f).Interface().(valueInterface)
-			if setStatus {
-				defer func() {
-					value1(f).SetBool(ok)
-				}()
+			if withOk {
+				defer setResult(f, &ok)
 			}
 			if !ok || !v.value.IsValid() {
 				ok = false
